@@ -92,6 +92,11 @@ func runC20(c *core.Ctx) {
 	}
 	g := gen.New(c.R)
 	t := caseTree(c, g, 7)
+	gen.Walk(t, func(n *gen.Node, _ bool) {
+		if n.Kind == "grpc" && n.N[0] == 0 {
+			n.N[0] = 1 + c.R.Intn(16) // a status with codes.OK is a success on the wire: not an error delivery
+		}
+	})
 	coverTree(c, t)
 	e, m, ok := safeBuild(c, t)
 	if !ok {
